@@ -41,6 +41,7 @@ export const DEFAULT_FEATURES = {
   tuples: true,
   jsdoc: true,
   maxDepth: 4,
+  cycleHeavy: false, // bias declarations and parsers toward recursive / mutually recursive types (C16)
   onlyRepresentableNumbers: false, // drop 1e21 (C01-lit-fixed-point) where it would only add noise
 };
 
@@ -488,8 +489,9 @@ export class TypeGen {
       [3, "litUnion"],
       [f.enums ? 2 : 0, "enum"],
       [f.generics ? 2 : 0, "generic"],
-      [f.recursion ? 2 : 0, "recursive"],
-      [f.recursion ? 1 : 0, "mutual"],
+      [f.recursion ? (f.cycleHeavy ? 6 : 2) : 0, "recursive"],
+      [f.recursion ? (f.cycleHeavy ? 4 : 1) : 0, "mutual"],
+      [f.recursion && f.discriminated ? (f.cycleHeavy ? 6 : 1) : 0, "mutualDisc"],
       [f.discriminated ? 2 : 0, "disc"],
       [f.typeofConst ? 1.5 : 0, "const"],
       [4, "misc"],
@@ -577,6 +579,34 @@ export class TypeGen {
         } else this.bump("decl:mutual");
         return ok;
       }
+      case "mutualDisc": {
+        // a discriminated union with inline variants that lies on a cycle through another named type
+        const a = this.fresh("XD");
+        const b = this.fresh("XH");
+        const key = r.pick(DISC_KEYS);
+        const da = {
+          d: "alias",
+          name: a,
+          params: [],
+          t: A.union([
+            A.obj([A.prop(key, A.lit("lit")), A.prop("v", this.scalarLeaf())]),
+            A.obj([A.prop(key, A.lit("block")), A.prop("holder", r.chance(0.5) ? A.ref(b) : A.arr(A.ref(b)))]),
+            ...(r.chance(0.4) ? [A.obj([A.prop(key, A.lit("pair")), A.prop("l", A.ref(a), true), A.prop("r", A.ref(b), true)])] : []),
+          ]),
+        };
+        const db = { d: r.chance(0.5) ? "alias" : "iface", name: b, params: [], ext: [], props: [A.prop("e", A.ref(a)), A.prop("label", this.scalarLeaf(), true)], index: null };
+        if (db.d === "alias") db.t = A.obj(db.props);
+        this.addDecl(da);
+        this.addDecl(db);
+        const ok = this.register(da) && this.register(db);
+        if (!ok) {
+          this.removeDecl(da);
+          this.removeDecl(db);
+          this.info.delete(a);
+          this.info.delete(b);
+        } else this.bump("decl:mutualDisc");
+        return ok;
+      }
       case "disc":
         return tryAdd({ d: "alias", name: this.fresh("D"), params: [], t: this.discUnion(depth), doc });
       case "const": {
@@ -608,7 +638,11 @@ export class TypeGen {
     const parsers = [];
     const cores = new Map();
     for (let i = 0; i < np; i++) {
-      const t = r.chance(0.45) && this.info.size ? A.ref(r.pick([...this.info.keys()])) : this.goodType(1 + r.below(this.f.maxDepth));
+      const named = [...this.info.keys()];
+      const cyc = named.filter((n) => /^(R|MA|MB|XD|XH)/.test(n));
+      const t = this.f.cycleHeavy && cyc.length && r.chance(0.6)
+        ? r.wpick([[3, () => A.ref(r.pick(cyc))], [1, () => A.obj([A.prop("items", A.arr(A.ref(r.pick(cyc))))])], [1, () => A.union([A.ref(r.pick(cyc)), A.kw("null")])]])()
+        : r.chance(0.45) && named.length ? A.ref(r.pick(named)) : this.goodType(1 + r.below(this.f.maxDepth));
       const core = this.tryNorm(t);
       if (core == null) continue;
       const name = `P${i}`;
